@@ -2,4 +2,7 @@
 
 package main
 
-import _ "verifharness/ps"
+import (
+	_ "verifharness/ps"
+	_ "verifharness/sc"
+)
